@@ -16,7 +16,7 @@ RULES = {
     "x stacks of depth 0..3 of {identity, add-header, replace-header, delete-header} middlewares and view decorators x both "
     "interfaces, compared with the bare application; non-trivial = depth >= 1 and the inner response has >= 2 body chunks, a repeated "
     "header or a status other than 200",
-    "grid": "exhaustive: raw inner apps over {0,1,2,3 chunks} x {list, tuple, iter, generator} x {0,1,2 Set-Cookie lines} x {identity depth 1, 2} x both interfaces",
+    "grid": "exhaustive: raw inner apps over {0,1,2,3 chunks} x {list, tuple, iter, generator, restarted start_response with exc_info / optional ASGI keys omitted} x {0,1,2 Set-Cookie lines} x {identity depth 1, 2} x both interfaces",
 }
 ASSUMPTIONS = [
     "body chunking, reason phrase and header order are free; a mid-body failure of the inner app may surface before or after the bytes already produced",
@@ -159,7 +159,7 @@ def raw_app(draw):
         "status": draw(st.sampled_from(["200 OK", "200 Fine", "201 Created", "404 Not Found", "599 Custom", "299 Whatever", "302 Found"])),
         "headers": draw(_raw_headers),
         "chunks": chunks,
-        "returns": draw(st.sampled_from(["list", "tuple", "iter", "generator", "generator-late-start"])),
+        "returns": draw(st.sampled_from(["list", "tuple", "iter", "generator", "generator-late-start", "restart"])),
         "raises": draw(st.sampled_from([None, None, None, None, "before", "after", "mid"])),
     }
 
@@ -188,7 +188,7 @@ def stack_case(draw):
 def grid_cases():
     cookies = [["Set-Cookie", "a=1; Path=/"], ["Set-Cookie", "b=2; HttpOnly"]]
     for n in range(0, 4):
-        for returns in ("list", "tuple", "iter", "generator"):
+        for returns in ("list", "tuple", "iter", "generator", "restart"):
             for nc in range(0, 3):
                 for depth in (1, 2):
                     yield {
